@@ -421,6 +421,25 @@ def run_noise(case):
             viol.append(dict(sig='c14-noise-variance-vs-estimator',
                              msg='simulated increment noise variance %s, estimator assumes %s'
                                  % (inc_var.tolist(), np.diag(JQ).tolist())))
+    # a simulator built FROM the estimation model carries that model's noise and walk intensities (and nothing else when
+    # all of its draws are zero): unit draws give the same gains as above
+    for which, a in (('noise', 1), ('walk', 2)):
+        imp = zero.copy()
+        imp[2, a] = 1.0
+        draws = [np.zeros((3, 3)), np.zeros(3)] + ([zero, imp] if which == 'noise' else [imp, zero])
+        out = isn.Parameters.from_EstimationModel(m, rng=QueueRNG(draws)).apply(readings, typ).values
+        exp = zero.copy()
+        if which == 'noise':
+            exp[2, a] = noise[a] * (dt_o[2] ** -0.5 if typ == 'rate' else dt_o[2] ** 0.5)
+        else:
+            exp[2:, a] = walk[a] * np.sqrt(dt_w[2])
+            if typ == 'increment':
+                exp = exp * dt_o[:, None]
+        n_imp += 1
+        if np.abs(out - exp).max() > 4 * EPS * np.abs(exp).max():
+            viol.append(dict(sig='c14-from-estimation-model:' + which,
+                             msg='Parameters.from_EstimationModel: a unit %s draw gives %s, the model\'s intensities imply %s'
+                                 % (which, out[:, a].tolist(), exp[:, a].tolist())))
     return viol, dict(impulses=n_imp), n_imp
 
 
